@@ -289,11 +289,13 @@ func runSeq(p *DPlan, system string, keepLog bool, prefix string) seqResult {
 				}
 				return
 			}
+			faultInOpen := false
 			for _, f := range p.Faults {
 				if ri == 0 && f.At < nsysOpen && f.Kind != "crash" {
 					// fault fired inside NewFileDisk yet it reported success:
 					// everything read afterwards must still be exact
 					res.faultHit = true
+					faultInOpen = true
 				}
 			}
 			api := diskAPI{d: d, global: global}
@@ -306,7 +308,14 @@ func runSeq(p *DPlan, system string, keepLog bool, prefix string) seqResult {
 				return
 			}
 			// reopen oracle: read everything first (C11 a), with both Read and ReadTo
-			if p.Batch != "seq" && p.Batch != "fault" {
+			if p.Batch != "seq" && (p.Batch != "fault" || faultInOpen) {
+				if faultInOpen {
+					// the backing file must have exactly the requested length
+					if data, ok := k.ReadFile(path); ok && uint64(len(data)) != rd.N*model.BlockSize {
+						fail(prefix+".fault.silent", prefix+".fault.silent/open/length", fmt.Sprintf("NewFileDisk(%d blocks) returned success although a system call inside it failed, and the image is %d bytes long", rd.N, len(data)))
+						return
+					}
+				}
 				for j := uint64(0); j < rd.N; j++ {
 					for _, how := range []string{"readto", "read"} {
 						var b []byte
